@@ -645,6 +645,21 @@ class Translator:
             raise astdump.ExtractionError('segment %s: %d statements of kind %s mention %s (code moved or rewritten?)'
                                           % (cname, len(cands), seg['kind'], seg.get('mentions')))
         node = cands[0]
+        if seg.get('preceded_by'):
+            # the contract's precondition is the postcondition of the statement just before it: check that it still is just before it
+            prev = [None]
+
+            def sib(x):
+                if isinstance(x, dict):
+                    inner = x.get('inner', [])
+                    for i, c in enumerate(inner):
+                        if c is node:
+                            prev[0] = inner[i - 1] if i > 0 else {}
+                        sib(c)
+            sib(body)
+            nm = names_of(prev[0] or {}, set())
+            if not all(m in nm for m in seg['preceded_by']):
+                raise astdump.ExtractionError('segment %s is no longer directly preceded by the statement mentioning %s' % (cname, seg['preceded_by']))
         declared, used, order = set(), {}, []
 
         def scan(x, loop_depth):
